@@ -262,10 +262,57 @@ def task_int_knots():
 task_int_knots.contract_fn = "calculus.Derivate.curve"
 
 
+# --------------------------------------------------------------------------------------
+# engine B: VECTOR-valued control points (numpy arrays): the derivative holds coordinate by coordinate, polynomial and rational (D32 broke the rational case)
+# --------------------------------------------------------------------------------------
+def task_vector_points():
+    fn = "calculus.Derivate.curve"
+    out = []
+    cases = {"bezier-p2": (2, (0, 0, 0)), "spline-p2": (2, (1, 0, 0)), "spline-p3-double": (3, (2, 0, 0)), "spline-p1": (1, (1, 1, 0))}
+    for name, (p, cells) in cases.items():
+        for rational in (False, True):
+            U = vec(p, cells, 1)
+            n = len(U) - p - 1
+            P = [np.array([F((-1) ** i * (i * i + 1), i + 2), F(3 - i * i), F(i, 3)], dtype=object) for i in range(n)]
+            W = [F(i % 3 + 1, 2) for i in range(n)] if rational else None
+            bad = None
+            try:
+                D = calculus.Derivate(curves.Curve(list(U), [q.copy() for q in P], None if W is None else list(W)))
+                cuts = sorted(set(U))
+                for a, b in zip(cuts[:-1], cuts[1:]):
+                    for s_ in (1, 3):
+                        u = a + (b - a) * F(s_, 4)
+                        k = spec.spec_span(list(U), p, u)
+                        N = spec.cdb(list(U), p, k, spec.Poly.X())[:n]
+                        got = D(u)
+                        for d in range(3):
+                            w = W if W is not None else [F(1)] * n
+                            num = sum((N[i] * (w[i] * P[i][d]) for i in range(n)), spec.Poly())
+                            den = sum((N[i] * w[i] for i in range(n)), spec.Poly())
+                            exp = (num.deriv()(u) * den(u) - num(u) * den.deriv()(u)) / den(u) ** 2
+                            if np.shape(got) != (3,) or abs(F(got[d]) - exp) > F(1, 10 ** 7) * max(1, abs(exp)):
+                                bad = "D(%s)[%d] = %s, the spec's derivative is %s" % (u, d, got[d] if np.shape(got) == (3,) else got, exp)
+                                break
+                        if bad:
+                            break
+                    if bad:
+                        break
+            except Exception as e:
+                bad = "%s: %s" % (type(e).__name__, str(e)[:100])
+            out.append(ob("%s:vector-points[%s,%s]" % (fn, name, "rat" if rational else "pol"), fn, FAILED if bad else PROVED, "B", "concrete", 0.0,
+                          bad or "3-D control points: the derivative holds in every coordinate at 2 parameters per span",
+                          dict(kind="c09.vector", case=name, rational=rational) if bad else None, {"rational": rational}))
+    return out + [{"_stats": dict(cases=len(out))}]
+
+
+task_vector_points.contract_fn = "calculus.Derivate.curve"
+
+
 def tasks(tier, seed):
     from ..pyvc.driver import verify
     from ..contracts import misc
-    ts = [(verify, (misc.DIFFERENCE_VECTOR, "heavy", "Calculus.difference_vector", None)),
+    ts = [(task_vector_points, ()),
+          (verify, (misc.DIFFERENCE_VECTOR, "heavy", "Calculus.difference_vector", None)),
           (verify, (misc.DIFFERENCE_MATRIX, "heavy", "Calculus.difference_matrix", None)),
           (verify, (misc.DERIV_BEZIER, "heavy", "Calculus.derivate_nonrational_bezier", None))]
     ts += [(task_order, (name,)) for name in ORDER_FAMILIES] + [(task_rational_high, ()), (task_int_knots, ())]
@@ -282,6 +329,9 @@ def replay(o):
     if w.get("kind") == "c09.int":
         r = [x for x in task_int_knots() if "id" in x and x["id"].endswith("[%s,%s]" % (w["case"], w["conv"]))][0]
         return r["status"] == FAILED, "derivative of the curve on integer knots", r["detail"]
+    if w.get("kind") == "c09.vector":
+        r = [x for x in task_vector_points() if "id" in x and x["id"].endswith("[%s,%s]" % (w["case"], "rat" if w["rational"] else "pol"))][0]
+        return r["status"] == FAILED, "derivative in every coordinate of a curve with 3-D control points", r["detail"]
     if w.get("kind") == "c09.order":
         r = task_order(w["family"])[0]
         return r["status"] == FAILED, "exact derivative in every order", r["detail"]
